@@ -221,6 +221,12 @@ func c20Gen(c *vfCtx, emit func(c20Case)) {
 			emit(c20Case{Kind: "fault", Ops: []string{op}, Fault: k, Env: env, Stale: 2}) // a bigger file around the slot
 		}
 	}
+	// Clean under one failing file-system operation: it must not panic, and without permission to delete or sort it changes nothing
+	for k := 1; k <= 24; k++ {
+		for _, srt := range []bool{false, true} {
+			emit(c20Case{Kind: "cleanfault", Ops: []string{"snap:pass", "ssnap:added", "snapg:pass"}, Stale: 3, Sort: srt, Fault: k, Env: env})
+		}
+	}
 	// concurrent: ops issued from 2..3 threads, every schedule within the bound
 	if env == "" || c.thorough() {
 		thr := [][][]string{
@@ -340,6 +346,10 @@ func c20Run(c *vfCtx, cs c20Case) {
 	}
 	if cs.Kind == "fault" {
 		c20Fault(c, cs)
+		return
+	}
+	if cs.Kind == "cleanfault" {
+		c20CleanFault(c, cs)
 		return
 	}
 	c.addSet("nontrivial", vfHashJSON(cs))
@@ -480,6 +490,47 @@ func c20Fault(c *vfCtx, cs c20Case) {
 			c.outcome(fmt.Sprintf("observed: %s after %s failing, value does not replay", got, hit))
 		}
 	}
+}
+
+func c20CleanFault(c *vfCtx, cs c20Case) {
+	dir := c.newWorld()
+	names := c20Names(cs.Ops, "Op")
+	c20Prepare(dir, names, cs.Ops)
+	c20Stale(dir, cs.Stale)
+	vfResetState(false, cs.Env, true)
+	for i, op := range cs.Ops {
+		t := &vfT{name: names[i]}
+		c20Do(dir, names[i], op, t)
+		t.end()
+	}
+	before := vfSnapDir(dir)
+	var panicked any
+	hit := ""
+	func() {
+		defer func() {
+			panicked = recover()
+			_, hit = sched.Disarm()
+		}()
+		sched.ArmFault(cs.Fault)
+		vfClean("", 1, cs.Sort)
+	}()
+	c.count("transitions", 1)
+	if hit == "" && panicked == nil {
+		c.outcome("clean performs fewer operations")
+		return
+	}
+	c.addSet("nontrivial", vfHashJSON(cs))
+	c.count("faults_injected", 1)
+	c.addSet("states", vfHash("cleanfault", hit, fmt.Sprint(vfHashDir(vfSnapDir(dir)))))
+	if panicked != nil {
+		c.violation("", fmt.Sprintf("Clean panicked when %s failed (operation %d): %v", hit, cs.Fault, panicked), cs)
+		return
+	}
+	mayWrite := cs.Env == "true" || cs.Env == "clean" || cs.Sort
+	if d := vfDirDiff(before, vfSnapDir(dir), true); d != "" && !mayWrite {
+		c.violation("", fmt.Sprintf("report-only Clean with %s failing (operation %d) changed the directory: %s", hit, cs.Fault, d), cs)
+	}
+	c.outcome("cleanfault:" + hit[:strings.Index(hit, "(")])
 }
 
 func c20Conc(c *vfCtx, cs c20Case) {
